@@ -75,6 +75,20 @@ def _fill_locs(node, state):
             _fill_locs(v, state)
 
 
+def _relativise(node, prefix):
+    """Store repo-relative file names: the cache is shared between scratch copies of the repository."""
+    if isinstance(node, dict):
+        f = node.get("file")
+        if isinstance(f, str) and f.startswith(prefix):
+            node["file"] = f[len(prefix):]
+        for v in node.values():
+            if isinstance(v, (dict, list)):
+                _relativise(v, prefix)
+    elif isinstance(node, list):
+        for v in node:
+            _relativise(v, prefix)
+
+
 def _parse_stream(txt):
     """clang prints 'Dumping <name>:' lines followed by one JSON object per match."""
     dec = json.JSONDecoder()
@@ -123,7 +137,7 @@ class CFront:
 
     def _digest(self, rel, incs, flt):
         h = hashlib.sha1()
-        h.update(("v3|" + rel + "|" + flt + "|").encode())
+        h.update(("v4|" + rel + "|" + flt + "|").encode())
         paths = [os.path.join(self.repo, rel)]
         for i in incs:
             d = os.path.join(self.repo, i)
@@ -170,6 +184,7 @@ class CFront:
                 raise AnalysisError("clang reports errors in %s: %s" % (rel, errs[0]))
             objs = _parse_stream(r.stdout)
             _fill_locs(objs, {})
+            _relativise(objs, self.repo.rstrip("/") + "/")
             os.makedirs(CACHE, exist_ok=True)
             tmp = cp + ".%d.tmp" % os.getpid()
             with open(tmp, "w") as f:
